@@ -273,6 +273,15 @@ pub fn run(tier: &str, seed: u64) -> i32 {
         |c, ctx| check_case(c, ctx, None),
     );
     report.add(st);
+    if thorough {
+        match roundtrip_tier() {
+            Ok(st) => report.add(st),
+            Err(e) => {
+                eprintln!("machinery error: round-trip farm: {e}");
+                return 2;
+            }
+        }
+    }
     report.assumptions = vec![
         "registries are produced by the SPM elaborator, which is compared entry-for-entry with real scale-info on the conformance corpus".into(),
         "the interpreter's table of external paths (core/alloc/codec) is written from their documentation".into(),
@@ -285,4 +294,162 @@ pub fn replay(case: &Case) -> Vec<Violation> {
     let mut ctx = Ctx::default();
     check_case(case, &mut ctx, None);
     ctx.violations
+}
+
+
+/// Thorough tier: enumerated encodings of every registry id are decoded with the REAL generated
+/// type (rustc + parity-scale-codec derives), must consume all input and re-encode identically.
+pub fn roundtrip_tier() -> Result<Stats, String> {
+    use crate::farm::*;
+    use crate::refenc::Enumerator;
+    use rayon::prelude::*;
+    let profile = compile_profile();
+    let mut progs: Vec<(String, crate::spm::Program)> = vec![];
+    let a = DArms { max_depth: 2 };
+    let (all, _, _) = enumerate(&a, 2, 1_000_000);
+    for (depth, s) in &all {
+        for (prog, pos) in arms_programs(&s.expr) {
+            // depth 2 only at the two variant positions (the struct positions are covered at depth <= 1)
+            if *depth == 2 && !pos.contains("Variant") {
+                continue;
+            }
+            progs.push((format!("D-arms {pos}"), prog));
+        }
+    }
+    let g = crate::graph::quick_graph(2);
+    let (all, _, _) = enumerate(&g, 2, 1_000_000);
+    for (_, s) in &all {
+        // recursive generics do not compile with the codec derive (known finding of C02)
+        if s.nodes.iter().any(|k| *k == crate::graph::NodeKind::GenericStruct) && s.cyclic_from(0) {
+            continue;
+        }
+        progs.push(("D-graph".into(), s.program()));
+    }
+    {
+        use crate::families::*;
+        let d = DGeneric {
+            max_fields: 2,
+            max_insts: 2,
+            include_cf3: false,
+            body_forms: ALL_BODY_FORMS.to_vec(),
+            param_forms: ALL_PARAM_FORMS.to_vec(),
+        };
+        let (all, _, _) = enumerate(&d, 1, 1_000_000);
+        for (depth, s) in &all {
+            if !crate::checks::c05::wf5_ok(s) {
+                continue;
+            }
+            let prog = s.program();
+            if s.insts.iter().any(|a| coincidence(&prog.defs[G_D], a, &prog).is_err()) {
+                continue;
+            }
+            // self references of a generic definition do not compile with the codec derive
+            if s.fields.iter().any(|f| matches!(&f.ty, crate::spm::Ty::Vec(x) | crate::spm::Ty::Box(x) if matches!(**x, crate::spm::Ty::Named(d, _) if d == G_D))) {
+                continue;
+            }
+            if *depth == 2 && s.form != BodyForm::Named {
+                continue;
+            }
+            progs.push(("D-generic".into(), prog));
+        }
+    }
+    let built: Vec<Option<RtCase>> = progs
+        .par_iter()
+        .map(|(label, prog)| {
+            let reg = crate::spm::elaborate(prog).registry;
+            let settings = profile.build();
+            let tokens = match generate(&reg, &settings) {
+                GenOutcome::Ok { tokens } => tokens,
+                _ => return None,
+            };
+            if tokens.contains("primitive :: char") {
+                return None;
+            }
+            let en = Enumerator { reg: &reg, cap: 8 };
+            let mut tests = vec![];
+            for id in 0..reg.types.len() as u32 {
+                let Some(encs) = en.encodings(id, 3) else { continue };
+                if encs.is_empty() {
+                    continue;
+                }
+                let Ok(Ok(path)) = resolve_path(&reg, &settings, id) else { continue };
+                tests.push((id, path, encs));
+            }
+            let case = Case::new(RegSrc::Prog(prog.clone()), profile.clone(), "roundtrip");
+            Some(RtCase {
+                label: label.clone(),
+                replay: case.replay("C01"),
+                tokens,
+                tests,
+            })
+        })
+        .collect();
+    let mut seen = std::collections::HashSet::new();
+    let mut cases = vec![];
+    for c in built.into_iter().flatten() {
+        if seen.insert(hash128(&c.tokens)) {
+            cases.push(c);
+        }
+    }
+    let res = roundtrip(&cases, 16)?;
+    let mut st = Stats {
+        driver: format!(
+            "round-trip farm: every enumerated encoding (boundary values, sequence lengths 0/1/2, every variant, depth 3) of every id of D-arms(depth<=1 all positions, depth 2 at variant positions), D-graph(edges<=2), D-generic(coincidence-free, depth<=1) decoded with the real compiled type ({} crates)",
+            res.crates
+        ),
+        states: cases.len() as u64,
+        transitions: res.decodes,
+        max_depth: 1,
+        bound_completed: 1,
+        exhaustive: true,
+        executed: res.decodes,
+        distinct_outcomes: 1 + (res.failures.len() + res.compile_errors.len()).min(1) as u64,
+        wall_s: res.wall_s,
+        ..Default::default()
+    };
+    st.notes.insert("encodings decoded with real compiled types".into(), res.decodes);
+    st.samples = cases
+        .iter()
+        .take(2)
+        .map(|c| json!({"label": c.label, "module": truncate(&c.tokens, 300), "tests": c.tests.iter().take(3).map(|(id, p, e)| json!({"id": id, "type": p, "encodings": e})).collect::<Vec<_>>()}))
+        .collect();
+    let mut by: std::collections::BTreeMap<String, (u64, Violation)> = Default::default();
+    let mut add = |sig: String, detail: String, replay: serde_json::Value, size: usize| {
+        let v = Violation { sig: sig.clone(), detail, replay, size };
+        match by.get_mut(&sig) {
+            Some((n, cur)) => {
+                *n += 1;
+                if v.size < cur.size {
+                    *cur = v
+                }
+            }
+            None => {
+                by.insert(sig, (1, v));
+            }
+        }
+    };
+    for f in &res.failures {
+        let c = &cases[f.case];
+        let class = f.message.split(' ').nth(1).unwrap_or("failure").to_string();
+        add(
+            format!("C01/rustc-roundtrip/{class}"),
+            format!("id {} of a {} case: {} - module: {}", f.id, c.label, f.message, truncate(&c.tokens, 300)),
+            c.replay.clone(),
+            c.tokens.len(),
+        );
+    }
+    for e in &res.compile_errors {
+        let c = &cases[e.case];
+        // compile errors are C02's subject; they are noted here, not reported as C01 violations
+        st.notes.entry(format!("modules that do not compile ({}; reported by C02)", e.code)).and_modify(|n| *n += 1).or_insert(1);
+        let _ = c;
+    }
+    st.violations = by
+        .into_values()
+        .map(|(n, mut v)| {
+            v.detail = format!("{} ({n} decodes fail this way; smallest module shown)", v.detail);
+            v
+        })
+        .collect();
+    Ok(st)
 }
